@@ -268,7 +268,7 @@ func popOf(in ssa.Instruction, q *types.Var) bool {
 // okEdges: the edges on which the pop's second result is true / false.
 func (g *IG) okEdges(pop *ssa.Call) (okE, notOkE map[edge]bool) {
 	okE, notOkE = map[edge]bool{}, map[edge]bool{}
-	for _, ifi := range ifsOf(g.Fn) {
+	for _, ifi := range g.ifs() {
 		for _, outcome := range []bool{true, false} {
 			f, ok := condFact(ifi.Cond, outcome)
 			if !ok || !f.Bool {
@@ -336,7 +336,7 @@ func (p *Program) casEdges(g *IG, f *types.Var, wantNew *int64) (nodes map[int]b
 		}
 		nodes[i] = true
 		cv, _ := in.(ssa.Value)
-		for _, ifi := range ifsOf(g.Fn) {
+		for _, ifi := range g.ifs() {
 			for _, outcome := range []bool{true, false} {
 				fc, ok := condFact(ifi.Cond, outcome)
 				if !ok || !fc.Bool || fc.X != cv {
